@@ -62,6 +62,9 @@ def run_replay(path: str) -> int:
 
 
 def main(argv=None):
+    import sys
+    import threading
+    sys.setrecursionlimit(20000)      # interprocedural summaries nest one analysis per call level
     ap = argparse.ArgumentParser(prog="ttsa")
     sub = ap.add_subparsers(dest="cmd", required=True)
     c = sub.add_parser("check")
@@ -92,9 +95,32 @@ def main(argv=None):
     return 2
 
 
+def _main_in_big_stack():
+    """main() on a thread with a 512 MB stack: the interprocedural analyses recurse once per call level of the analysed code"""
+    import threading
+    box = {}
+
+    def run():
+        try:
+            box["rc"] = main()
+        except SystemExit as e:
+            box["exit"] = e
+        except BaseException as e:  # noqa
+            box["err"] = e
+    threading.stack_size(512 * 1024 * 1024)
+    t = threading.Thread(target=run)
+    t.start()
+    t.join()
+    if "exit" in box:
+        raise box["exit"]
+    if "err" in box:
+        raise box["err"]
+    return box.get("rc", 2)
+
+
 if __name__ == "__main__":
     try:
-        rc = main()
+        rc = _main_in_big_stack()
     except SystemExit:
         raise
     except BaseException as e:  # noqa
